@@ -8,7 +8,14 @@
 //!   parse_operation_document / parse_type_system_document, resolve_schema_extensions, check_type_system_document,
 //!   ast_to_type_system, resolve_operation_extensions, check_operation_document, the printers when check passes
 //!   (operation types with values, operation JS), print_positioned_error, parse_config, loader_native::*.
-//! O: any panic (or a case over the time bound) is a failure; signature = stage + panic site class.
+//! The semantic stress stream: VALID-syntax inputs with cyclic / repeated structure for every fixpoint / worklist loop
+//! of the later stages — directive definitions referencing each other through argument directives, enum values and
+//! input-object fields (every digraph on ≤ 3 directives incl. self loops, a sample / all on 4, long chains), fragment
+//! spread graphs (through an operation and unspread), `implements` graphs, input objects referencing each other
+//! (nullable and non-null), unions of unions, deep ordinary nesting. Each case runs parse → resolve → check (→
+//! printers) in a CHILD PROCESS that announces every stage; a watchdog kills the child when a stage does not return
+//! (`hang:<stage>:<family>:<shape>`), so non-termination is detected for real and the run still ends.
+//! O: any panic, hang (or a case over the generous time bound) is a failure; signature = stage + panic site class.
 //! K: the Lean parser model (`nv_c07`) and the real parser agree on the outcome of every text of the stream
 //!    (ok / syntax error with position / panic with site).
 use nitrogql_ast::base::Pos;
@@ -368,6 +375,404 @@ mod worker {
     }
 }
 
+// ------------------------------------------------------------------------------------------------
+// the semantic stress stream: stage-announcing worker + watchdog
+
+mod stress_worker {
+    use nitrogql_ast::{set_current_file_of_pos, TypeSystemOrExtensionDocument};
+    use nitrogql_checker::{check_operation_document, check_type_system_document, OperationCheckContext};
+    use nitrogql_parser::{parse_operation_document, parse_type_system_document};
+    use nitrogql_printer::{
+        print_js_for_operation_document, print_types_for_operation_document, OperationJSPrinterOptions, OperationTypePrinterOptions,
+    };
+    use nitrogql_semantics::{ast_to_type_system, resolve_operation_extensions, resolve_schema_extensions};
+    use nvh::catch;
+    use nvh::real::NITROGQL_BUILTINS_SDL;
+    use serde_json::{json, Value};
+    use sourcemap_writer::JustWriter;
+    use std::io::{BufRead, Write};
+    use std::panic::AssertUnwindSafe;
+
+    fn say(line: &str) {
+        let mut o = std::io::stdout();
+        let _ = writeln!(o, "{line}");
+        let _ = o.flush();
+    }
+    /// announce a stage (the watchdog attributes a hang to the last announced stage)
+    fn stage(name: &str) {
+        say(&format!("s {name}"));
+    }
+
+    fn run_case(c: &Value) -> Value {
+        let sdl = c["schema"].as_str().unwrap_or("").to_string();
+        let ops: Vec<String> = c["operations"].as_array().map(|a| a.iter().map(|x| x.as_str().unwrap_or("").to_string()).collect()).unwrap_or_default();
+        let nb_text = NITROGQL_BUILTINS_SDL.to_string();
+        macro_rules! guarded {
+            ($name:expr, $body:expr) => {{
+                stage($name);
+                match catch(AssertUnwindSafe(|| $body)) {
+                    Ok(v) => v,
+                    Err(m) => return json!({"panic": [$name, m]}),
+                }
+            }};
+        }
+        set_current_file_of_pos(0);
+        let doc = match guarded!("parse-schema", parse_type_system_document(&sdl)) {
+            Ok(d) => d,
+            Err(_) => return json!({"schema": "syntax-error"}),
+        };
+        let resolved = guarded!("resolve-schema", {
+            let mut merged = TypeSystemOrExtensionDocument::merge(vec![doc]);
+            merged.extend(graphql_builtins::generate_builtins());
+            let nb = parse_type_system_document(&nb_text).expect("builtin sdl");
+            merged.extend(nb.definitions);
+            resolve_schema_extensions(merged)
+        });
+        let resolved = match resolved {
+            Ok(r) => r,
+            Err(_) => return json!({"schema": "resolve-error"}),
+        };
+        let errs = guarded!("check-schema", check_type_system_document(&resolved).len());
+        if errs > 0 {
+            return json!({"schema": "check-errors", "n": errs});
+        }
+        let schema = guarded!("ast_to_type_system", ast_to_type_system(&resolved));
+        let mut outs = vec![];
+        for (i, t) in ops.iter().enumerate() {
+            set_current_file_of_pos(i + 1);
+            let d = match guarded!("parse-operation", parse_operation_document(t)) {
+                Ok(d) => d,
+                Err(_) => {
+                    outs.push("syntax-error");
+                    continue;
+                }
+            };
+            let d = match guarded!("resolve-operation", resolve_operation_extensions(d)) {
+                Ok((d, _)) => d,
+                Err(_) => {
+                    outs.push("resolve-error");
+                    continue;
+                }
+            };
+            let n = guarded!("check-operation", {
+                let ctx = OperationCheckContext::new(&schema);
+                check_operation_document(&d, &ctx).len()
+            });
+            if n > 0 {
+                outs.push("check-errors");
+                continue;
+            }
+            guarded!("print-types", {
+                let mut out = String::new();
+                let mut w = JustWriter::new(&mut out);
+                let options = OperationTypePrinterOptions { print_values: true, ..Default::default() };
+                print_types_for_operation_document(options, &schema, &d, &mut w);
+            });
+            guarded!("print-js", {
+                let mut out = String::new();
+                let mut w = JustWriter::new(&mut out);
+                print_js_for_operation_document(OperationJSPrinterOptions::default(), &d, &mut w);
+            });
+            outs.push("generated");
+        }
+        json!({"schema": "accepted", "ops": outs})
+    }
+
+    pub fn main() {
+        std::panic::set_hook(Box::new(|_| {}));
+        let stdin = std::io::stdin();
+        for line in stdin.lock().lines() {
+            let Ok(line) = line else { break };
+            let Ok(c) = serde_json::from_str::<Value>(&line) else { continue };
+            // a roomy stack: "deep but ordinary nesting" must not be mistaken for a defect of the harness thread
+            let t = std::thread::Builder::new().stack_size(64 << 20).spawn(move || run_case(&c)).expect("spawn");
+            let r = t.join().unwrap_or(json!({"panic": ["thread", "worker thread died"]}));
+            say(&format!("r {}", serde_json::to_string(&r).unwrap()));
+        }
+    }
+}
+
+/// watchdog for the stress stream: per case, the child must finish within this bound. The inputs are tiny (a
+/// handful of definitions): every stage takes well under a millisecond, so the bound is ~10^4 × the expected time
+/// and cannot alarm on a loaded machine, while a non-terminating loop is caught.
+const HANG_BOUND_MS: u64 = 20000;
+/// after this many hangs the rest of the stress stream is skipped (every hang costs the full bound)
+const MAX_HANGS: usize = 3;
+
+struct StressWorker {
+    child: Child,
+    stdin: ChildStdin,
+    lines: std::sync::mpsc::Receiver<String>,
+}
+
+enum StressRes {
+    Done(Value),
+    Hang(String),
+    Died(String),
+}
+
+impl StressWorker {
+    fn spawn() -> StressWorker {
+        let exe = std::env::current_exe().expect("current exe");
+        let mut child = Command::new(exe).arg("--worker").arg("2").stdin(Stdio::piped()).stdout(Stdio::piped()).stderr(Stdio::null()).spawn().expect("spawn stress worker");
+        let stdin = child.stdin.take().unwrap();
+        let stdout = BufReader::new(child.stdout.take().unwrap());
+        let (tx, rx) = std::sync::mpsc::channel();
+        std::thread::spawn(move || {
+            for l in stdout.lines() {
+                match l {
+                    Ok(l) => {
+                        if tx.send(l).is_err() {
+                            break;
+                        }
+                    }
+                    Err(_) => break,
+                }
+            }
+        });
+        StressWorker { child, stdin, lines: rx }
+    }
+    fn call(&mut self, case: &Value) -> StressRes {
+        let line = serde_json::to_string(case).unwrap();
+        if self.stdin.write_all(line.as_bytes()).is_err() || self.stdin.write_all(b"\n").is_err() || self.stdin.flush().is_err() {
+            return StressRes::Died("worker gone".into());
+        }
+        let deadline = std::time::Instant::now() + std::time::Duration::from_millis(HANG_BOUND_MS);
+        let mut last_stage = String::from("start");
+        loop {
+            let left = deadline.saturating_duration_since(std::time::Instant::now());
+            match self.lines.recv_timeout(left) {
+                Ok(l) => {
+                    if let Some(s) = l.strip_prefix("s ") {
+                        last_stage = s.trim().to_string();
+                    } else if let Some(r) = l.strip_prefix("r ") {
+                        return StressRes::Done(serde_json::from_str(r.trim()).unwrap_or(Value::Null));
+                    }
+                }
+                Err(std::sync::mpsc::RecvTimeoutError::Timeout) => {
+                    let _ = self.child.kill();
+                    let _ = self.child.wait();
+                    return StressRes::Hang(last_stage);
+                }
+                Err(std::sync::mpsc::RecvTimeoutError::Disconnected) => {
+                    let _ = self.child.wait();
+                    return StressRes::Died(format!("worker process died during stage {last_stage} (stack overflow / abort)"));
+                }
+            }
+        }
+    }
+    fn close(mut self) {
+        drop(self.stdin);
+        let _ = self.child.wait();
+    }
+}
+
+/// run stress cases (`{"stream":"stress","class":…,"schema":…,"operations":[…]}`) under the watchdog
+fn stress_stream(rep: &mut Report, cases: &[Value]) {
+    let mut w = StressWorker::spawn();
+    let mut hangs = 0;
+    for (k, c) in cases.iter().enumerate() {
+        if hangs >= MAX_HANGS {
+            rep.count_n("stress:skipped-after-hangs", (cases.len() - k) as u64);
+            rep.notes.push(format!("stress stream stopped after {MAX_HANGS} hangs; {} cases not run", cases.len() - k));
+            break;
+        }
+        rep.evaluations += 1;
+        rep.o_cases += 1;
+        let class = c["class"].as_str().unwrap_or("unclassified").to_string();
+        rep.nontrivial(&format!("stress|{}|{}", c["schema"], c["operations"]));
+        rep.count(&format!("stress:{}", class.split(':').next().unwrap_or("")));
+        match w.call(c) {
+            StressRes::Done(r) => {
+                if let Some(p) = r.get("panic").and_then(|p| p.as_array()) {
+                    let (st, m) = (p[0].as_str().unwrap_or(""), p[1].as_str().unwrap_or(""));
+                    rep.fail("O", &format!("panic:{st}:{}", panic_class(m)), &format!("stage {st} panics on a {class} input: {}", m.lines().next().unwrap_or("")), c.clone());
+                } else {
+                    rep.count(&format!("stress-outcome:{}", r["schema"].as_str().unwrap_or("?")));
+                    if let Some(ops) = r["ops"].as_array() {
+                        for o in ops {
+                            rep.count(&format!("stress-op:{}", o.as_str().unwrap_or("?")));
+                        }
+                    }
+                }
+            }
+            StressRes::Hang(st) => {
+                hangs += 1;
+                rep.fail("O", &format!("hang:{st}:{class}"), &format!("stage {st} does not return within {HANG_BOUND_MS} ms on a {class} input of {} bytes", c["schema"].as_str().map_or(0, |s| s.len())), c.clone());
+                w = StressWorker::spawn();
+            }
+            StressRes::Died(m) => {
+                rep.fail("O", &format!("abort:{class}"), &m, c.clone());
+                w = StressWorker::spawn();
+            }
+        }
+    }
+    w.close();
+}
+
+// ---- generators of the stress stream
+
+/// edges of a digraph on n nodes from a bit mask (bit i*n+j = edge i → j)
+fn edges_of(n: usize, mask: u32) -> Vec<Vec<usize>> {
+    (0..n).map(|i| (0..n).filter(|j| mask >> (i * n + j) & 1 == 1).collect()).collect()
+}
+
+/// shape class of a digraph (computed from the graph, not from how it was generated)
+fn shape_class(adj: &[Vec<usize>]) -> &'static str {
+    let n = adj.len();
+    // reach[i][j]: a path of length ≥ 1 from i to j
+    let mut reach = vec![vec![false; n]; n];
+    for i in 0..n {
+        for &j in &adj[i] {
+            reach[i][j] = true;
+        }
+    }
+    for k in 0..n {
+        for i in 0..n {
+            for j in 0..n {
+                if reach[i][k] && reach[k][j] {
+                    reach[i][j] = true;
+                }
+            }
+        }
+    }
+    let on_cycle: Vec<bool> = (0..n).map(|i| reach[i][i]).collect();
+    let any_cycle = on_cycle.iter().any(|b| *b);
+    let self_loop_only = any_cycle && (0..n).all(|i| !on_cycle[i] || adj[i].contains(&i) && (0..n).all(|j| j == i || !(reach[i][j] && reach[j][i])));
+    let from_outside = (0..n).any(|i| !on_cycle[i] && (0..n).any(|j| on_cycle[j] && reach[i][j]));
+    let diamond = (0..n).any(|i| (0..n).any(|j| j != i && adj.iter().enumerate().filter(|(k, _)| reach[i][*k] || *k == i).filter(|(_, a)| a.contains(&j)).count() >= 2));
+    match (any_cycle, self_loop_only, from_outside) {
+        (true, true, true) => "self-loop-reached-from-outside",
+        (true, false, true) => "cycle-reached-from-outside",
+        (true, true, false) => "self-loop",
+        (true, false, false) => "cycle",
+        _ => {
+            if diamond { "diamond" } else if adj.iter().all(|a| a.is_empty()) { "no-edges" } else { "acyclic" }
+        }
+    }
+}
+
+const DIR_LOCS: &str = "ARGUMENT_DEFINITION | ENUM_VALUE | INPUT_FIELD_DEFINITION | ENUM | INPUT_OBJECT | SCALAR | FIELD_DEFINITION";
+
+/// directive definitions d0..d(n-1); edge i → j realised through `via` (0 argument directive, 1 enum value, 2 input field, 3 mixed)
+fn directive_graph_sdl(adj: &[Vec<usize>], via: usize) -> String {
+    let mut s = String::from("type Query { a: Int }\n");
+    for (i, outs) in adj.iter().enumerate() {
+        let mut args = vec![];
+        for (k, &j) in outs.iter().enumerate() {
+            let how = if via == 3 { (i + j + k) % 3 } else { via };
+            match how {
+                0 => args.push(format!("a{k}: Int @d{j}")),
+                1 => {
+                    s.push_str(&format!("enum E{i}_{k} {{ V @d{j} W }}\n"));
+                    args.push(format!("a{k}: E{i}_{k}"));
+                }
+                _ => {
+                    s.push_str(&format!("input I{i}_{k} {{ f: Int @d{j} g: [I{i}_{k}] }}\n"));
+                    args.push(format!("a{k}: I{i}_{k}"));
+                }
+            }
+        }
+        let args = if args.is_empty() { String::new() } else { format!("({})", args.join(", ")) };
+        s.push_str(&format!("directive @d{i}{args} on {DIR_LOCS}\n"));
+    }
+    s
+}
+
+fn stress_case(family: &str, shape: &str, schema: String, operations: Vec<String>) -> Value {
+    json!({"stream": "stress", "class": format!("{family}:{shape}"), "schema": schema, "operations": operations})
+}
+
+fn stress_cases(rng: &mut Rng, thorough: bool) -> Vec<Value> {
+    let mut out = vec![];
+    // 1. directive graphs: ALL digraphs on 1..3 nodes through argument directives; through enum values / input fields /
+    //    mixed: all on ≤ 2 nodes + a sample on 3; 4 nodes: a sample (quick) / many (thorough); long chains into a cycle
+    for n in 1..=3usize {
+        for mask in 0..(1u32 << (n * n)) {
+            let adj = edges_of(n, mask);
+            out.push(stress_case("directive-args", shape_class(&adj), directive_graph_sdl(&adj, 0), vec![]));
+            if n <= 2 || rng.chance(1, 6) {
+                for via in 1..=3 {
+                    let fam = ["", "directive-enum-values", "directive-input-fields", "directive-mixed"][via];
+                    out.push(stress_case(fam, shape_class(&adj), directive_graph_sdl(&adj, via), vec![]));
+                }
+            }
+        }
+    }
+    for _ in 0..(if thorough { 6000 } else { 350 }) {
+        let mask = (rng.next_u64() & 0xffff) as u32 & (rng.next_u64() & 0xffff) as u32 | 1 << rng.below(16);
+        let adj = edges_of(4, mask);
+        let via = rng.below(4);
+        let fam = ["directive-args", "directive-enum-values", "directive-input-fields", "directive-mixed"][via];
+        out.push(stress_case(fam, shape_class(&adj), directive_graph_sdl(&adj, via), vec![]));
+    }
+    for len in [5usize, 9, 17] {
+        for tail in [0usize, 1, 3] {
+            // chain d0 → d1 → … → d(len-1) → d(len-1-tail): a cycle of length tail+1 reached from far outside
+            let mut adj: Vec<Vec<usize>> = (0..len).map(|i| if i + 1 < len { vec![i + 1] } else { vec![] }).collect();
+            adj[len - 1].push(len - 1 - tail);
+            out.push(stress_case("directive-args", shape_class(&adj), directive_graph_sdl(&adj, 0), vec![]));
+        }
+        let adj: Vec<Vec<usize>> = (0..len).map(|i| if i + 1 < len { vec![i + 1] } else { vec![] }).collect();
+        out.push(stress_case("directive-args", "long-chain", directive_graph_sdl(&adj, 3), vec![]));
+    }
+    // 2. fragment spread graphs: through an operation, and unspread
+    let base = "type Query { a: Int t: Query }";
+    for n in 1..=3usize {
+        for mask in 0..(1u32 << (n * n)) {
+            if n == 3 && !thorough && !rng.chance(1, 3) {
+                continue;
+            }
+            let adj = edges_of(n, mask);
+            let frags: String = adj.iter().enumerate().map(|(i, o)| format!("fragment F{i} on Query {{ a t {{ a }} {} }}\n", o.iter().map(|j| format!("...F{j}")).collect::<Vec<_>>().join(" "))).collect();
+            out.push(stress_case("fragments-spread-by-operation", shape_class(&adj), base.into(), vec![format!("query Q {{ ...F0 t {{ ...F0 }} }}\n{frags}")]));
+            out.push(stress_case("fragments-unspread", shape_class(&adj), base.into(), vec![format!("query Q {{ a }}\n{frags}"), frags.clone()]));
+        }
+    }
+    // 3. implements graphs (interfaces implementing each other) and 4. input objects (nullable / non-null edges), 5. unions of unions
+    for n in 1..=3usize {
+        for mask in 0..(1u32 << (n * n)) {
+            if n == 3 && !thorough && !rng.chance(1, 3) {
+                continue;
+            }
+            let adj = edges_of(n, mask);
+            let shape = shape_class(&adj);
+            let ifaces: String = adj.iter().enumerate().map(|(i, o)| {
+                let imp = if o.is_empty() { String::new() } else { format!(" implements {}", o.iter().map(|j| format!("I{j}")).collect::<Vec<_>>().join(" & ")) };
+                format!("interface I{i}{imp} {{ f: Int }}\n")
+            }).collect();
+            out.push(stress_case("implements", shape, format!("type Query implements I0 {{ f: Int }}\n{ifaces}"), vec!["query Q { f ... on I0 { f } }".into()]));
+            for nonnull in [false, true] {
+                let inputs: String = adj.iter().enumerate().map(|(i, o)| {
+                    let fs: Vec<String> = o.iter().map(|j| format!("r{j}: I{j}{}", if nonnull { "!" } else { "" })).collect();
+                    format!("input I{i} {{ x: Int {} }}\n", fs.join(" "))
+                }).collect();
+                out.push(stress_case(if nonnull { "input-objects-non-null" } else { "input-objects-nullable" }, shape,
+                    format!("type Query {{ f(i: I0): Int }}\n{inputs}"), vec!["query Q($v: I0) { f(i: $v) g: f(i: {x: 1}) }".into()]));
+            }
+            let unions: String = adj.iter().enumerate().map(|(i, o)| {
+                let ms: Vec<String> = o.iter().map(|j| format!("U{j}")).chain(std::iter::once("A".to_string())).collect();
+                format!("union U{i} = {}\n", ms.join(" | "))
+            }).collect();
+            out.push(stress_case("unions-of-unions", shape, format!("type Query {{ u: U0 }}\ntype A {{ x: Int }}\n{unions}"), vec!["query Q { u { ... on A { x } __typename } }".into()]));
+        }
+    }
+    // 6. deep but ordinary nesting (≤ 50)
+    for d in [10usize, 30, 50] {
+        let sel = format!("{}a{}", "t { ".repeat(d), " }".repeat(d));
+        out.push(stress_case("deep-nesting", "selection-sets", base.into(), vec![format!("query Q {{ {sel} }}")]));
+        let frs: String = (0..d).map(|i| format!("fragment F{i} on Query {{ a {} }}\n", if i + 1 < d { format!("...F{}", i + 1) } else { String::new() })).collect();
+        out.push(stress_case("deep-nesting", "fragment-chain", base.into(), vec![format!("query Q {{ ...F0 }}\n{frs}")]));
+        let lit = format!("{}{{x: 1}}{}", "{r: ".repeat(d), "}".repeat(d));
+        out.push(stress_case("deep-nesting", "input-literal", "type Query { f(i: I): Int }\ninput I { x: Int r: I }".into(), vec![format!("query Q {{ f(i: {lit}) }}")]));
+        let lst = format!("{}1{}", "[".repeat(d.min(12)), "]".repeat(d.min(12)));
+        out.push(stress_case("deep-nesting", "list-literal", format!("type Query {{ f(l: {}Int{}): Int }}", "[".repeat(d.min(12)), "]".repeat(d.min(12))), vec![format!("query Q {{ f(l: {lst}) }}")]));
+        let inl = format!("{}a{}", "... on Query { ".repeat(d), " }".repeat(d));
+        out.push(stress_case("deep-nesting", "inline-fragments", base.into(), vec![format!("query Q {{ {inl} }}")]));
+    }
+    out
+}
+
 struct Worker {
     child: Child,
     stdin: ChildStdin,
@@ -529,14 +934,19 @@ fn replay(ctx: &mut Ctx, c: &Value) {
             ctx.render_case(c["source"].as_str().unwrap_or(""), p, extra, c);
         }
         "loader" => loader_stream(ctx.rep, &[c["case"].clone()]),
+        "stress" => stress_stream(ctx.rep, &[c.clone()]),
         _ => {}
     }
 }
 
 fn main() {
     let args = Args::parse();
-    if args.extra.contains_key("worker") {
-        worker::main();
+    if let Some(w) = args.extra.get("worker") {
+        if w == "2" {
+            stress_worker::main();
+        } else {
+            worker::main();
+        }
         return;
     }
     install_hook();
@@ -617,6 +1027,11 @@ fn main() {
     let slow = ctx.slowest.clone();
     let lc = loader_cases(&mut rng, args.budget(500, 5000));
     loader_stream(&mut rep, &lc);
+    // the semantic stress stream runs LAST (a hang costs the full watchdog bound)
+    let sc = stress_cases(&mut rng, args.thorough() || search);
+    rep.extra.insert("stress_cases".into(), json!(sc.len()));
+    rep.extra.insert("hang_bound_ms".into(), json!(HANG_BOUND_MS));
+    stress_stream(&mut rep, &sc);
     rep.extra.insert("slowest_case_ms".into(), json!({"ms": slow.0 as u64, "what": slow.1}));
     rep.extra.insert("time_bound_ms".into(), json!(TIME_BOUND_MS as u64));
     rep.write(&args);
